@@ -8,6 +8,7 @@ import (
 	"os"
 	"os/exec"
 	"path/filepath"
+	"runtime/pprof"
 	"sort"
 	"strconv"
 	"strings"
@@ -59,6 +60,11 @@ func cmdWorker(args []string) int {
 	if *arch != "" {
 		targetArch = *arch
 	}
+	if pf := os.Getenv("VERIF_PPROF"); pf != "" {
+		f, _ := os.Create(pf)
+		pprof.StartCPUProfile(f)
+		defer pprof.StopCPUProfile()
+	}
 	all, err := scanHarnesses()
 	if err != nil {
 		fmt.Fprintln(os.Stderr, err)
@@ -96,6 +102,9 @@ func cmdWorker(args []string) int {
 		if err2 != nil {
 			res.Inconclusive = append(res.Inconclusive, err2.Error())
 			continue
+		}
+		if v := os.Getenv("VERIF_TIMEOUT"); v != "" {
+			h.Timeout, _ = strconv.Atoi(v)
 		}
 		timeout := time.Duration(h.Timeout) * time.Second
 		if *tier == "thorough" {
